@@ -1,4 +1,6 @@
 """C13 — global options are honoured wherever they appear."""
+import re
+
 from .. import facts as F
 from .. import peg, rx, kw
 from ..anchors import Anchors
@@ -218,18 +220,19 @@ def run(c, facts, tier):
                 comp = fn
     if comp is None:
         raise F.AnchorMissing("public compile function")
-    oks = None
-    det = "options rendering not found"
-    for st in comp.body["stmts"]:
-        if st["k"] == "let" and st["init"] is not None and find_all(st["init"], lambda n: n.get("k") == "field" and n["name"] == "threads"):
-            init = st["init"]
-            base, chain = rx.method_chain(init)
-            ms = [m for m, _, _ in chain]
-            strs = [n["v"] for n in find_all(init, lambda n: n.get("k") == "lit" and n.get("t") == "str")]
-            tostr = bool(find_all(init, lambda n: n.get("k") == "mcall" and n["m"] == "to_string")) or bool(find_all(init, lambda n: n.get("k") == "macro" and n["name"] == "format"))
-            oks = tostr and strs == ["(lipe-getopt-thread-count)"] and ms[-1] in ("unwrap_or", "unwrap_or_else", "unwrap_or_default") and all(m in ("and_then", "map", "unwrap_or", "unwrap_or_else") for m in ms)
-            det = "threads rendered by %s with default %s" % (ms, strs)
-            var = rx.pat_bindings(st["pat"])
+    from .. import toplevel, emit as _emit
+
+    T = toplevel.summary(facts)
+    rend = {}
+    for p_ in T["paths"]:
+        if p_["outcome"] != "ok" or not p_["fields"]:
+            continue
+        o = p_["fields"].get("options")
+        txt = _emit.canon_parts(o["parts"]) if isinstance(o, dict) and o.get("v") == "str" else (_emit.canon(o) if isinstance(o, dict) else None)
+        thr = [v for k, v in p_["conds"].items() if k.endswith(".threads")]
+        rend.setdefault(thr[0] if thr else "unconditional", set()).add(txt)
+    oks = rend.get("Some") is not None and len(rend) == 2 and all(re.fullmatch(r"\{@\d+\.threads\.some\}", t or "") for t in rend["Some"]) and rend.get("None") == {"(lipe-getopt-thread-count)"}
+    det = "options field of the compiled expression: threads=Some(n) → %s, threads=None → %s" % (sorted(rend.get("Some", [])), sorted(rend.get("None", [])))
     c.ob("C13.threads", comp.key, "Some(n) → n.to_string(), None → runtime default call", oks, det)
     # position in the scan call: decided on the skeleton template (shared with C02.skeleton)
     from .. import emit
@@ -238,10 +241,5 @@ def run(c, facts, tier):
     okp = sk is not None and sk.get("lipe_scan_args") is not None and len(sk["lipe_scan_args"]) == 5 and sk["lipe_scan_args"][4] == "{self.options}"
     c.ob("C13.threads", "CompiledExpression::scheme", "thread count is the fifth argument of lipe-scan", okp, "lipe-scan arguments in the template: %s" % (sk.get("lipe_scan_args") if sk else None))
     # field provenance: CompiledExpression.options is the rendered string
-    lits = find_all(comp.body, lambda n: n.get("k") == "struct" and n["segs"][-1] == "CompiledExpression")
-    okv = False
-    if lits:
-        for f in lits[0]["fields"]:
-            if f["name"] == "options":
-                okv = rx.var_name(f["e"]) == "options"
+    okv = bool(rend) and "unconditional" not in rend
     c.ob("C13.threads", comp.key, "the rendered thread string is stored in the compiled expression", okv, "field `options` initialised from the local rendering: %s" % okv)
